@@ -98,6 +98,31 @@ def hostile_pe(rng, kind):
             text = text[: rng.range(0, len(text) - 1)]
     elif kind == "text-elsewhere":
         text_lo = rng.choice([0x1000 + rng.range(1, 0x40), 0x4000, 0x800])
+    elif kind == "many-pops":
+        # more registers than the compressed rule (and its fixed-capacity register list) can hold: in the unwind codes
+        # and as an "epilog" in the text bytes
+        n = rng.choice([8, 9, 9, 10, 12, 16])
+        regs16 = [3, 5, 6, 7, 12, 13, 14, 15, 0, 1, 2, 8, 9, 10, 11, 4]
+        f0 = funcs[0]
+        if f0[1] - f0[0] < 0x30:
+            d = 0x30 - (f0[1] - f0[0])
+            f0[1] += d
+            for ff in funcs[1:]:
+                ff[0] += d; ff[1] += d
+        uinfos[f0[2]]["ops"] = [(30, ("alloc", 32))] * rng.below(2) + [(20, ("pop", regs16[k % 16])) for k in range(n)]
+        uinfos[f0[2]]["fpreg"] = None
+        epi = b"".join((bytes([0x58 + r]) if r < 8 else bytes([0x41, 0x58 + r - 8])) for r in regs16[:n]) + bytes([0xC3])
+        f1 = funcs[1]
+        f1[1] = max(f1[1], f1[0] + len(epi) + 4)
+        for j, (bb, ee, ii) in enumerate(funcs[2:], 2):
+            if funcs[j][0] < f1[1]:
+                d = f1[1] - funcs[j][0] + 4
+                funcs[j][0] += d; funcs[j][1] += d
+        need = max(ff[1] for ff in funcs) - text_lo + 8
+        if need > len(text):
+            text += bytearray([0x90] * (need - len(text)))
+        text[f1[0] - text_lo + 2: f1[0] - text_lo + 2 + len(epi)] = epi
+        extra_probes = [f1[0] + 2 + k for k in range(len(epi))] + [f0[0] + 0x1f, f0[0] + 0x20, (f0[1] - 1)]
     elif kind == "plain":
         pass
     for (b, e, i) in list(funcs):
@@ -107,11 +132,13 @@ def hostile_pe(rng, kind):
         for a in (b, b + 1, b + rng.range(0, 0x30), (e - 1) & 0xffffffff, e & 0xffffffff, (e + 1) & 0xffffffff):
             probes.append(a & 0xffffffff)
     probes += [0, 1, 0xfff, text_lo, 0xffffffff]
+    if kind == "many-pops":
+        probes += extra_probes
     return funcs, uinfos, text_lo, bytes(text), text_hi, probes
 
 def structural(rng, tier):
     out = []
-    kinds = ["plain", "end-before-begin", "overlap", "uinfo-missing", "chain-cycle", "chain-long", "text-short", "text-elsewhere"]
+    kinds = ["plain", "end-before-begin", "overlap", "uinfo-missing", "chain-cycle", "chain-long", "text-short", "text-elsewhere", "many-pops"]
     reps = 2 if tier == "quick" else 24
     for rep in range(reps):
         for kind in kinds:
@@ -483,6 +510,9 @@ def analysis_stream(rng, tier):
                    _mt.a_word(0xA9BF7C1D), _mt.a_word(0xA9817BFD)]
     SEQ = [b"".join(AUTH) + _mt.a_word(0x14000013), b"".join(AUTH) + _mt.a_word(0xD28836F0) + _mt.a_word(0xD71F0870),
            b"".join(AUTH[:3]) + _mt.a_word(0x14000013), b"".join(AUTH) + _mt.a_word(0xD28836F0), b"".join(AUTH) + _mt.a_word(0xD28836E0) + _mt.a_word(0xD71F0870)]
+    # the function's bytes end inside the sequence: after every byte of its last two instructions
+    full = b"".join(AUTH) + _mt.a_word(0xD28836F0) + _mt.a_word(0xD71F0870)
+    TRUNC = [full[:n] for n in range(len(full) - 8, len(full))] + [(b"".join(AUTH) + _mt.a_word(0x14000013))[:n] for n in range(13, 20)]
     for arch, pool, gran in (("x86", X86, 1), ("a64", A64, 4)):
         for rep in range(2 if tier == "quick" else 30):
             s = Script(arch, "may")
@@ -504,6 +534,8 @@ def analysis_stream(rng, tier):
                 if arch == "a64" and k % 5 == 0:
                     # whole and damaged authenticated tail calls behind some epilogue instructions
                     b = b"".join(rng.choice(pool) for _ in range(rng.range(0, 3))) + rng.choice(SEQ) + b"".join(rng.choice(pool) for _ in range(rng.range(0, 2)))
+                    if k % 10 == 0:
+                        b = b"".join(rng.choice(pool) for _ in range(rng.range(0, 3))) + TRUNC[(k // 10) % len(TRUNC)]
                 if k % 7 == 3 and len(b) >= 4:
                     # one flipped bit in one instruction word / byte: the neighbours of every recognised encoding
                     bb = bytearray(b); i = rng.below(len(bb)); bb[i] ^= 1 << rng.below(8); b = bytes(bb)
